@@ -18,6 +18,7 @@ inductive Tok where
   | pers (ch u m p id seq : Nat)          -- the reference store persisted a record
   | hang (call : Nat)                     -- a future / the stop did not complete (30 s)
   | lkerr (u m : Nat)                     -- the reference store answered a lookup for (u, m) with an error
+  | twoInflight (ch : Nat)                -- a second AppendBatch for ch arrived while one was in flight
   deriving DecidableEq, Repr, Inhabited
 
 /-- position of the first token satisfying p -/
@@ -106,6 +107,7 @@ def reappendedByRecovery (l : List Tok) (id : Nat) : Bool :=
 
 def judge (l : List Tok) : String :=
   if l.any (fun | .hang _ => true | .res _ _ 5 _ _ => true | _ => false) then "viol:future-never-completed"
+  else if l.any (fun | .twoInflight _ => true | _ => false) then "viol:two-appends-in-flight"
   else if !(persistedTwice l).isEmpty then
     -- one logical send stored twice.  Known (narrow): an item WITHOUT a client message number whose
     -- first append was durable but reported ErrAppendFailed is re-appended by idempotency recovery.
@@ -124,5 +126,17 @@ def judge (l : List Tok) : String :=
     else "viol:seq-order"
   else if !noDupInRequest l then "viol:duplicate-in-append-batch"
   else "ok"
+
+
+/-- steered, failure-free scenarios: additionally every send reaches the Appender at most once (payloads are
+    unique per item there) and every live send succeeds (`mustSucceed` = item indexes of call 1) -/
+def judgeNoFailures (mustSucceed : List Nat) (l : List Tok) : String :=
+  let v := judge l
+  if v != "ok" then v
+  else
+    let ms : List (Nat × Nat × Nat) := l.filterMap fun | .msg _ u m p _ => some (u, m, p) | _ => none
+    if !(decide ms.Nodup) then "viol:item-appended-twice"
+    else if !(mustSucceed.all fun i => l.any fun | .res 1 i' 0 _ _ => i' == i | _ => false) then "viol:live-send-failed"
+    else "ok"
 
 end WK.C29
